@@ -1,6 +1,4 @@
-mod common;
-mod world;
-mod c02;
+include!(concat!(env!("OUT_DIR"), "/mods.rs"));
 
 use common::Args;
 
@@ -21,8 +19,5 @@ fn main() {
             _ => { i += 1; }
         }
     }
-    match a[1].as_str() {
-        "c02" => c02::run(&args),
-        other => { eprintln!("unknown property {other}"); std::process::exit(2); }
-    }
+    if !dispatch(a[1].as_str(), &args) { eprintln!("unknown property {}", a[1]); std::process::exit(2); }
 }
